@@ -107,7 +107,18 @@ func c27Gen(rng *rand.Rand, tier string, w *bufio.Writer) {
 		fmt.Fprintln(w, line)
 	}
 	dump(c27Plain)
-	for c := 2; c < cases+2; c++ {
+	// corpus: a key containing '/', then (separately) the empty key, each next to clean keys
+	fmt.Fprintln(w, "case 2")
+	fmt.Fprintf(w, "save %s %s %s=v1,%s=v2,%s=v1\n", T("i0"), T("d0"), T("a/b"), T("a"), T("k0"))
+	fmt.Fprintf(w, "core %s %s\n", T("i0"), T("d0"))
+	for _, k := range []string{"a/b", "a", "k0"} {
+		fmt.Fprintf(w, "index %s %s\n", T("i0"), T(k))
+	}
+	fmt.Fprintln(w, "case 3")
+	fmt.Fprintf(w, "save %s %s %s=v3,%s=v1\n", T("i0"), T("d0"), T(""), T("k0"))
+	fmt.Fprintf(w, "core %s %s\n", T("i0"), T("d0"))
+	fmt.Fprintf(w, "index %s %s\n", T("i0"), T("k0"))
+	for c := 4; c < cases+4; c++ {
 		fmt.Fprintf(w, "case %d\n", c)
 		pool := c27Plain
 		if c%3 == 0 {
